@@ -295,7 +295,85 @@ class Recorder:
             self.states.append([g, dsl])
 
 
-def run_rewire(net, tg, slimit, climit, choices, randoms, every_draw=True):
+class Adaptive(Recorder):
+    """generation-time oracle: answers draws so that promising corner pairs are met often; the answers it
+    gave become the static script of the case (choices are then replayed verbatim)"""
+
+    def __init__(self, rng, n_choices, randoms, names):
+        Recorder.__init__(self, [], randoms, names, False)
+        self.rng = rng
+        self.budget = n_choices
+        self.e0 = None
+        self.prev_random = True
+
+    def promising(self, e0, e1):
+        from gcmpy.names.network_names import NetworkNames as NN
+        G = self.G
+        try:
+            d0, d1 = G.edges[e0], G.edges[e1]
+            if d0[NN.TOPOLOGY] != d1[NN.TOPOLOGY] or d0[NN.MOTIF_IDS] == d1[NN.MOTIF_IDS]:
+                return False
+            u0, v0 = e0[0], e1[0]
+            if G.nodes[u0][NN.JOINT_DEGREE] == G.nodes[v0][NN.JOINT_DEGREE]:
+                return False
+            if any(G.edges[e][NN.MOTIF_IDS] == d1[NN.MOTIF_IDS] for e in G.edges(u0)):
+                return False
+            if any(G.edges[e][NN.MOTIF_IDS] == d0[NN.MOTIF_IDS] for e in G.edges(v0)):
+                return False
+            c0 = [e[1] for e in G.edges(u0) if G.edges[e][NN.MOTIF_IDS] == d0[NN.MOTIF_IDS]]
+            c1 = [e[1] for e in G.edges(v0) if G.edges[e][NN.MOTIF_IDS] == d1[NN.MOTIF_IDS]]
+            if len(c0) != len(c1):
+                return False
+            if any(G.has_edge(u0, x) for x in c1) or any(G.has_edge(v0, x) for x in c0):
+                return False
+            if len(c0) == 1 and G.nodes[c0[0]][NN.JOINT_DEGREE] == G.nodes[c1[0]][NN.JOINT_DEGREE]:
+                return False
+            return True
+        except Exception:  # noqa: BLE001
+            return False
+
+    def choice(self, seq):
+        if len(seq) == 0:
+            raise IndexError("Cannot choose from an empty sequence")
+        if self.budget <= 0:
+            raise oracles.OracleProtocol("choice budget exhausted")
+        self.budget -= 1
+        outer = self.e0 is None or self.G is None or self.is_outer_draw()
+        i = self.rng.randrange(len(seq))
+        if not outer and self.rng.random() < 0.75:
+            cands = [j for j, e in enumerate(seq) if self.promising(self.e0, e)]
+            if cands:
+                i = self.rng.choice(cands)
+        elif outer and self.G is not None and len(seq) <= 80 and self.rng.random() < 0.7:
+            cands = [j for j, e in enumerate(seq) if any(self.promising(e, f) for f in seq)]
+            if cands:
+                i = self.rng.choice(cands)
+        if outer:
+            self.e0 = seq[i]
+        self.prev_random = False
+        self.choices.append(i)
+        self.ci += 1
+        self.events.append([0, i])
+        return seq[i]
+
+    def random(self):
+        self.prev_random = True
+        return Recorder.random(self)
+
+    def is_outer_draw(self):
+        """is this draw the `e0 = EdgeSet.draw()` of rewire()? (read from the calling source line)"""
+        import linecache
+        fr = sys._getframe(2)
+        for _ in range(6):
+            if fr is None:
+                break
+            if fr.f_code.co_name == "rewire":
+                return "e0" in linecache.getline(fr.f_code.co_filename, fr.f_lineno)
+            fr = fr.f_back
+        return self.prev_random
+
+
+def run_rewire(net, tg, slimit, climit, choices, randoms, every_draw=True, adaptive=None):
     """returns the observation of one scripted rewire() run on the real code"""
     import gcmpy.tools.draw_set as ds_mod
     from gcmpy.names.tools_names import ToolsNames
@@ -311,7 +389,8 @@ def run_rewire(net, tg, slimit, climit, choices, randoms, every_draw=True):
     limits = [mc._search_limit, mc._convergence_limit]
     if not all(isinstance(x, int) for x in limits):
         limits = [-1, -1]
-    rec = Recorder(choices, randoms, net["names"], every_draw)
+    rec = Adaptive(adaptive, len(choices), randoms, net["names"]) if adaptive is not None else \
+        Recorder(choices, randoms, net["names"], every_draw)
 
     orig_gae = mc.get_all_edges
     orig_sc = mc.swap_condition
@@ -373,7 +452,7 @@ def run_rewire(net, tg, slimit, climit, choices, randoms, every_draw=True):
     after = canon_graph(N.G, net["names"])
     return {"status": status, "limits": limits, "events": rec.events, "order": first_order,
             "states": rec.states, "final": final, "before": before, "after": after,
-            "frames": [[_fq(a), _fq(b)] for a, b in rec.frames]}
+            "frames": [[_fq(a), _fq(b)] for a, b in rec.frames], "choices_used": list(rec.choices)[:rec.ci]}
 
 
 def _fq(x):
@@ -462,3 +541,385 @@ def run_methods(net, tg, queries):
             item["exc"] = type(e).__name__
         out.append(item)
     return {"items": out, "unchanged": canon_graph(G, net["names"]) == before}
+
+
+# ================================================================== case level (shared by c11.py / c12.py)
+def is_exc(obs):
+    return isinstance(obs, list) and len(obs) >= 1 and obs[0] == "!exc"
+
+
+def impl(case):
+    if case["kind"] == "run":
+        return run_rewire(case["net"], case["tg"], case["slimit"], case["climit"], case["choices"],
+                          case["randoms"], every_draw=case.get("every_draw", True))
+    return run_methods(case["net"], case["tg"], case["queries"])
+
+
+def _opt(x):
+    return [] if x is None else [x]
+
+
+def model_calls(case, obs, run_entry="c11_run"):
+    net = case["net"]
+    if case["kind"] == "run":
+        if not case.get("model", True):
+            return []
+        if is_exc(obs) or not obs.get("order"):
+            order = gedges_order(net)
+            events = [] if is_exc(obs) else obs["events"]
+        else:
+            order, events = obs["order"], obs["events"]
+        es = net_in_order(net, order)
+        if es is None:
+            es = [[min(a, b), max(a, b), t, m] for a, b, t, m in net["edges"]]
+        return [(run_entry, [net["jds"], es, wire_target(case["tg"]), _opt(case["slimit"]), _opt(case["climit"]),
+                             events])]
+    if is_exc(obs):
+        return []
+    g0 = canon_net(net)
+    qs = []
+    cq = []
+    mids = {(min(a, b), max(a, b)): m for a, b, _t, m in net["edges"]}
+    for (u0, e0, v0, e1, r), it in zip(case["queries"], obs["items"]):
+        qs.append([u0, v0, it.get("c0", []), it.get("c1", []), r])
+        cq.append([u0, mids[(min(e0), max(e0))]])
+        cq.append([v0, mids[(min(e1), max(e1))]])
+    return [("mcmc_methods", [g0[0], g0[1], wire_target(case["tg"]), qs]), ("mcmc_corners", [g0[1], cq])]
+
+
+def model_obs(case, raws):
+    if case["kind"] == "run":
+        if not raws:
+            return None
+        st, fin, states, limits = raws[0]
+        status = [st[0]] if st[0] != 2 else [2, EXC_CODES.get(st[1], str(st[1]))]
+        return {"status": status, "limits": limits, "final": sorted(fin[0]),
+                "states": [[sorted(s[0]), s[1]] for s in states]}
+    if not raws:
+        return None
+    return {"methods": raws[0], "corners": raws[1]}
+
+
+def compare(case, obs, mobs):
+    if case["kind"] == "run":
+        if mobs is None:
+            return None if not is_exc(obs) or not case.get("valid", True) else f"implementation raised {obs[1]}"
+        if is_exc(obs):
+            return f"implementation raised {obs[1]} (model: status {mobs['status']}, limits {mobs['limits']})"
+        n = len(case["net"]["jds"])
+        ist = obs["status"]
+        if ist == [3]:
+            ist = [0]
+        if ist != mobs["status"]:
+            return f"status: impl {obs['status']} model {mobs['status']}"
+        if obs["limits"] != mobs["limits"]:
+            return f"limits [search, convergence]: impl {obs['limits']} model {mobs['limits']}"
+        if len(obs["states"]) != len(mobs["states"]):
+            return f"number of graph changes: impl {len(obs['states'])} model (accepted swaps) {len(mobs['states'])}"
+        for i, ((g, dsl), (mes, mds)) in enumerate(zip(obs["states"], mobs["states"])):
+            if g[1] != mes:
+                d1 = [e for e in g[1] if e not in mes]
+                d2 = [e for e in mes if e not in g[1]]
+                return f"graph after change {i}: impl-only edges {d1[:6]} model-only edges {d2[:6]}"
+            if g[0] != [list(j) for j in case["net"]["jds"]]:
+                return f"graph after change {i}: node annotations differ"
+            if dsl is not None and [enc_key(n, a, b) for a, b in dsl] != mds:
+                return f"draw set after change {i}: impl {dsl[:8]}.. model {mds[:8]}.."
+        if obs["final"] is not None and obs["final"][1] != mobs["final"]:
+            return "returned graph differs from the model's final graph"
+        if obs["before"] != obs["after"]:
+            return "the input network object was modified by rewire()"
+        return None
+    # methods
+    if is_exc(obs):
+        return f"implementation raised {obs[1]}"
+    if mobs is None:
+        return "no model answer"
+    if not obs["unchanged"]:
+        return "method calls modified the graph"
+    for qi, (q, it, mm) in enumerate(zip(case["queries"], obs["items"], mobs["methods"])):
+        mc0, mc1 = mobs["corners"][2 * qi], mobs["corners"][2 * qi + 1]
+        tag = f"query {qi} (u0={q[0]} e0={q[1]} v0={q[2]} e1={q[3]})"
+        if "exc" in it:
+            return f"{tag}: implementation raised {it['exc']}"
+        if sorted(it["c0"]) != sorted(mc0) or sorted(it["c1"]) != sorted(mc1):
+            return f"{tag}: get_all_edges impl {it['c0']} / {it['c1']} model {mc0} / {mc1}"
+        if not it["focal_first"]:
+            return f"{tag}: get_all_edges did not put the focal vertex first"
+        if mm[0] == -1:
+            return f"{tag}: model could not read the corner attributes"
+        msuit, kind, top, bot, props, dec = mm
+        if bool(msuit) != it["suitable"]:
+            return f"{tag}: is_edge_choice_suitable impl {it['suitable']} model {bool(msuit)}"
+        if "swap_exc" in it:
+            if kind != 2 or EXC_CODES.get(top) != it["swap_exc"]:
+                return f"{tag}: swap_condition raised {it['swap_exc']}, model kind {kind} {top}"
+            continue
+        if kind == 2:
+            return f"{tag}: model raises {EXC_CODES.get(top)}, swap_condition returned {it['decision']}"
+        if it["called_random"] != (1 if kind == 1 else 0):
+            return f"{tag}: random.random() calls impl {it['called_random']} model kind {kind}"
+        if it["decision"] != bool(dec):
+            return f"{tag}: decision impl {it['decision']} model {bool(dec)}"
+        if kind == 1:
+            from harness.core import close
+            tb = it["top_bot"]
+            if tb is None or tb[0] is None or tb[1] is None:
+                return f"{tag}: numerator/denominator not observable"
+            if not close(Fraction(tb[0][0], tb[0][1]), Fraction(top[0], top[1])) or \
+                    not close(Fraction(tb[1][0], tb[1][1]), Fraction(bot[0], bot[1])):
+                return f"{tag}: top/bottom impl {tb} model {top} {bot}"
+            ip = [p[:4] for p in it["props"]]
+            if ip != props:
+                return f"{tag}: proposal edges impl {ip} model {props}"
+            foc = [p[4] for p in it["props"]]
+            if foc != [q[0], q[2]] * (len(foc) // 2):
+                return f"{tag}: proposal edges do not keep the focal vertex first"
+    return None
+
+
+def accepted_items(case, obs):
+    """(query, item) of the method-level queries the implementation found suitable AND accepted"""
+    out = []
+    if is_exc(obs):
+        return out
+    for q, it in zip(case["queries"], obs["items"]):
+        if it.get("suitable") and it.get("decision") and "props" in it:
+            out.append((q, it))
+    return out
+
+
+def swap_tree(case, q, it):
+    g0 = canon_net(case["net"])
+    return [g0[0], g0[1], q[0], q[2], it["c0"], it["c1"], [p[:4] for p in it["props"]]]
+
+
+def run_graphs(obs):
+    gs = [s[0] for s in obs["states"]]
+    if obs["final"] is not None and (not gs or gs[-1] != obs["final"]):
+        gs.append(obs["final"])
+    return gs
+
+
+# ------------------------------------------------------------------ generators
+def rand_scripts(rng, n_choices, n_randoms, p_zero=0.5):
+    choices = [rng.randrange(0, 1 << 20) for _ in range(n_choices)]
+    randoms = [[0, 1] if rng.random() < p_zero else [rng.randrange(0, 64), 64] for _ in range(n_randoms)]
+    return choices, randoms
+
+
+def small_net(rng, flavour=None):
+    flavour = flavour or rng.choice(["cliques", "cliques", "mixed", "gen", "cycles"])
+    if flavour == "gen":
+        net = generator_network(rng, rng.randint(6, 14), 2, 2)
+        if net is not None and net["edges"]:
+            return net
+        flavour = "cliques"
+    if flavour == "cliques":
+        n = rng.randint(6, 18)
+        return random_clean_network(rng, n, ["2c", "3c"], rng.randint(3, max(3, (3 * n) // 4)), NAMES_CLIQUES)
+    if flavour == "cycles":
+        n = rng.randint(8, 18)
+        return random_clean_network(rng, n, ["2c", "c4", "c4", "3c"], rng.randint(3, max(3, n // 2)), NAMES_ALL)
+    n = rng.randint(8, 18)
+    return random_clean_network(rng, n, ["2c", "3c", "c4", "dia", "dia"], rng.randint(3, max(3, n // 2)), NAMES_ALL)
+
+
+def gen_run(rng, drop, zero, big=False):
+    net = small_net(rng)
+    tg = random_target(rng, net, drop=drop * rng.random(), zero=zero * rng.random(),
+                       absent_topology=(drop > 0 and rng.random() < 0.2))
+    sl = rng.choice([0, 1, 2, 3, 5, 5, 25, 25, 25, 25, None, None])
+    cl = rng.choice([0, 1, 2, 5, 10, 30, 30, 30, None])
+    ch, ra = rand_scripts(rng, rng.choice([40, 150, 400]) * (3 if big else 1), rng.choice([3, 20, 60]))
+    if rng.random() < 0.8:
+        ch = adaptive_choices(rng, net, tg, sl, cl, ch, ra)
+    return {"kind": "run", "net": net, "tg": tg, "slimit": sl, "climit": cl, "choices": ch, "randoms": ra,
+            "valid": True, "every_draw": True, "model": True}
+
+
+def adaptive_choices(rng, net, tg, sl, cl, ch, ra):
+    """run the real code once with the adaptive oracle; its answers (padded with the random tail) are the script"""
+    try:
+        o = run_rewire(net, tg, sl, cl, ch, ra, every_draw=False, adaptive=rng)
+        used = o["choices_used"]
+    except BaseException as e:  # noqa: BLE001
+        if isinstance(e, (KeyboardInterrupt, SystemExit)) or type(e).__name__ == "ImplTimeout":
+            raise
+        return ch
+    return used + ch[len(used):]
+
+
+def gen_methods(rng, drop, zero, nq):
+    net = small_net(rng)
+    tg = random_target(rng, net, drop=drop * rng.random(), zero=zero * rng.random())
+    return {"kind": "methods", "net": net, "tg": tg, "queries": method_queries(net, rng, nq), "valid": True}
+
+
+def gen_invalid(rng):
+    """inputs outside the property's hypotheses: only the error correspondence is checked"""
+    net = small_net(rng, "cliques")
+    tg = random_target(rng, net)
+    which = rng.choice(["zero-present", "short-jd"])
+    if which == "zero-present":
+        # weight 0.0 on pairings that exist -> denominator 0 -> ErrorMarkovChainMonteCarloRewiring
+        for items in tg:
+            for it in items:
+                if rng.random() < 0.6:
+                    it[1] = [0, 1]
+    else:
+        # joint degree tuples shorter than the number of topologies -> IndexError on 3-clique edges
+        net = dict(net)
+        net["jds"] = [j[:1] for j in net["jds"]]
+        tg = [[[k[:1] + k[2:3], q] for k, q in items] for items in tg]
+    ch, ra = rand_scripts(rng, 200, 30)
+    return {"kind": "run", "net": net, "tg": tg, "slimit": 25, "climit": 5, "choices": ch, "randoms": ra,
+            "valid": False, "every_draw": True, "model": True}
+
+
+def gen_long(rng, n, swaps, kinds, names, drop=0.0, zero=0.0, model=False):
+    net = random_clean_network(rng, n, kinds, int(n * rng.uniform(0.7, 1.1)), names)
+    tg = random_target(rng, net, drop=drop, zero=zero)
+    ch, ra = rand_scripts(rng, swaps * 120, swaps * 12, p_zero=0.3)
+    return {"kind": "run", "net": net, "tg": tg, "slimit": rng.choice([20, 25, None]), "climit": swaps,
+            "choices": ch, "randoms": ra, "valid": True, "every_draw": False, "model": model}
+
+
+# the section-3 replays
+def corpus_cases():
+    out = []
+    # C11a: params without CONVERGENCE_LIMIT / SEARCH_LIMIT
+    net = assemble(9, [("3c", [0, 1, 2]), ("3c", [3, 4, 5]), ("2c", [6, 7]), ("2c", [2, 8]), ("2c", [5, 6])],
+                   NAMES_CLIQUES)
+    tg = _flat_target(net)
+    n1 = make_order_index(net)
+    out.append({"kind": "run", "net": net, "tg": tg, "slimit": None, "climit": None,
+                "choices": [0, 3, 3, 1, 5, 7, 2, 4, 6, 0, 1, 2, 3, 4, 5, 6, 7, 8, 9, 10] * 6,
+                "randoms": [[0, 1]] * 12, "valid": True, "every_draw": True, "model": True, "name": "C11a"})
+    # C11b: one accepted swap between two triangles (first draw (0,1), second (3,4))
+    out.append({"kind": "run", "net": net, "tg": tg, "slimit": 25, "climit": 0,
+                "choices": [n1[(2, 8)], n1[(5, 6)], n1[(0, 1)], n1[(5, 6)], n1[(3, 4)]] + [0, 1, 2, 3] * 8,
+                "randoms": [[0, 1]] * 3, "valid": True, "every_draw": True, "model": True,
+                "name": "C11b"})
+    # C11c: two triangles sharing vertex 0; e0 = (0,1) (u0 = 0), e1 = (3,4) (v0 = 3, u0 in its motif)
+    net2 = assemble(7, [("3c", [0, 1, 2]), ("3c", [0, 3, 4]), ("2c", [5, 6]), ("2c", [1, 5])], NAMES_CLIQUES)
+    tg2 = _flat_target(net2)
+    n2 = make_order_index(net2)
+    out.append({"kind": "run", "net": net2, "tg": tg2, "slimit": 25, "climit": 0,
+                "choices": [n2[(0, 1)], n2[(3, 4)]] + [n2[(0, 1)], n2[(5, 6)]] * 30, "randoms": [[0, 1]] * 4,
+                "valid": True, "every_draw": True, "model": True, "name": "C11c"})
+    for c in list(out):
+        if c.get("name") in ("C11b", "C11c"):
+            qs = []
+            foc = []
+            for a, b, _t, _m in c["net"]["edges"]:
+                foc += [(a, (a, b)), (b, (a, b))]
+            for (u0, e0), (v0, e1) in itertools.product(foc, foc):
+                qs.append([u0, list(e0), v0, list(e1), [0, 1]])
+            out.append({"kind": "methods", "net": c["net"], "tg": c["tg"], "queries": qs, "valid": True,
+                        "name": c["name"] + "-methods"})
+    return out
+
+
+def make_order_index(net):
+    return {(a, b): i for i, (a, b) in enumerate(map(tuple, gedges_order(net)))}
+
+
+def _flat_target(net):
+    """full-support symmetric target with distinct dyadic weights (deterministic)"""
+    import random as _r
+    return random_target(_r.Random(12345), net)
+
+
+def generate(rng, tier, drop, zero):
+    q = tier == "quick"
+    for _ in range(140 if q else 1200):
+        yield gen_run(rng, drop, zero)
+    for _ in range(40 if q else 300):
+        yield gen_methods(rng, drop, zero, 80 if q else 200)
+    for _ in range(6 if q else 40):
+        yield gen_invalid(rng)
+    for _ in range(10 if q else 60):
+        yield gen_run(rng, drop, zero, big=True)
+    # long real runs: the checker judges every intermediate graph
+    for _ in range(2 if q else 6):
+        yield gen_long(rng, rng.randint(40, 60), 120 if q else 600, ["2c", "3c"], NAMES_CLIQUES, drop, zero,
+                       model=True)
+    yield gen_long(rng, 40, 100 if q else 400, ["2c", "3c", "c4", "dia"], NAMES_ALL, drop, zero, model=True)
+    if not q:
+        yield gen_long(rng, 150, 1000, ["2c", "3c"], NAMES_CLIQUES, drop, zero, model=True)
+        yield gen_long(rng, 200, 600, ["2c", "3c", "c4", "dia"], NAMES_ALL, drop, zero, model=False)
+        yield gen_long(rng, 600, 2000, ["2c", "3c"], NAMES_CLIQUES, drop, zero, model=False)
+
+
+def search_batches(rng, drop, zero):
+    """after a broken correspondence: long real runs on 40-600-vertex networks, judged by the checker"""
+    yield [gen_long(rng, 40, 300, ["2c", "3c"], NAMES_CLIQUES, drop, zero) for _ in range(4)]
+    yield [gen_long(rng, 40, 300, ["2c", "3c", "c4", "dia"], NAMES_ALL, drop, zero) for _ in range(4)]
+    yield [gen_methods(rng, drop, zero, 400) for _ in range(40)]
+    yield [gen_run(rng, drop, zero, big=True) for _ in range(200)]
+    yield [gen_long(rng, 150, 800, ["2c", "3c"], NAMES_CLIQUES, drop, zero) for _ in range(2)]
+    yield [gen_long(rng, 600, 2000, ["2c", "3c"], NAMES_CLIQUES, drop, zero)]
+
+
+def nontrivial_key(case, obs):
+    if is_exc(obs):
+        return None
+    if case["kind"] == "run":
+        return [case["net"]["edges"], obs["events"][:200], len(obs["states"])] if obs["states"] else None
+    acc = accepted_items(case, obs)
+    return [case["net"]["edges"], len(acc)] if acc else None
+
+
+def shrink(case):
+    if case["kind"] == "run":
+        ch, ra = case["choices"], case["randoms"]
+        for k in (len(ch) // 2, (3 * len(ch)) // 4, len(ch) - 1):
+            if 0 < k < len(ch):
+                c = dict(case)
+                c["choices"] = ch[:k]
+                yield c
+        for k in (len(ra) // 2, len(ra) - 1):
+            if 0 < k < len(ra):
+                c = dict(case)
+                c["randoms"] = ra[:k]
+                yield c
+    else:
+        qs = case["queries"]
+        if len(qs) > 1:
+            h = len(qs) // 2
+            for part in (qs[:h], qs[h:]):
+                c = dict(case)
+                c["queries"] = part
+                yield c
+
+
+def describe(case, obs):
+    d = {"kind": case["kind"], "vertices": len(case["net"]["jds"]), "edges": len(case["net"]["edges"]),
+         "topologies": case["net"]["names"]}
+    if is_exc(obs):
+        d["impl"] = obs
+    elif case["kind"] == "run":
+        d.update({"limits": obs["limits"], "status(0=finished,1=script exhausted,2=raised)": obs["status"],
+                  "oracle_events": len(obs["events"]), "accepted_swaps": len(obs["states"])})
+    else:
+        d.update({"queries": len(case["queries"]), "suitable": sum(1 for i in obs["items"] if i.get("suitable")),
+                  "accepted": len(accepted_items(case, obs))})
+    return d
+
+
+def histogram(cases):
+    h = {"run": 0, "methods": 0, "invalid_inputs": 0, "default_limits": 0, "long_runs": 0, "max_vertices": 0}
+    for c in cases:
+        h[c["kind"]] += 1
+        if not c.get("valid", True):
+            h["invalid_inputs"] += 1
+        if c["kind"] == "run" and (c["climit"] is None or c["slimit"] is None):
+            h["default_limits"] += 1
+        if c["kind"] == "run" and not c.get("every_draw", True):
+            h["long_runs"] += 1
+        h["max_vertices"] = max(h["max_vertices"], len(c["net"]["jds"]))
+        for k in ("4-cycle", "d-outer"):
+            if k in c["net"]["names"] and any(c["net"]["names"][e[2]] == k for e in c["net"]["edges"]):
+                h["with_" + k] = h.get("with_" + k, 0) + 1
+    return h
